@@ -2,6 +2,7 @@
 //! canonical result line per case (the Lean driver `h3drv` prints the model's and the
 //! specification's answer for the same lines).
 mod e_c16;
+mod e_c18;
 mod util;
 
 use std::io::{BufRead, BufWriter, Write};
@@ -9,6 +10,7 @@ use std::io::{BufRead, BufWriter, Write};
 fn dispatch(w: &[&str]) -> String {
     match w.first().copied() {
         Some("varint") | Some("sid") => e_c16::handle(w),
+        Some("dgram") => e_c18::handle(w),
         _ => "bad-op".into(),
     }
 }
